@@ -134,6 +134,16 @@ def run_impl(sc):
             try:
                 if op[0] == "send":
                     sm.send(f"e{op[1]}")
+                elif op[0] == "setst":
+                    # assignment of a State object: one of the machine's own (class-level or per-instance
+                    # wrapper), or a State of another class with the same id and name but another value
+                    if isinstance(op[1], int):
+                        sm.current_state = getattr(M if op[2] else sm, f"s{op[1]}")
+                    else:
+                        fs = State(value=pyv(op[1]["raw"]), initial=True)
+                        fs.to.itself(event="x")
+                        F = type(StateMachine)("F", (StateMachine,), {f"s{op[1]['like']}": fs})
+                        sm.current_state = getattr(F if op[2] else F(), f"s{op[1]['like']}")
                 elif op[0] == "set":
                     sm.current_state_value = state_value(sc, op[1]) if isinstance(op[1], int) else pyv(op[1]["raw"])
                 else:
@@ -195,7 +205,7 @@ def coq_case(sc, obs):
     for op in sc["ops"]:
         if op[0] == "send":
             ops.append(f"SSend {op[1]}")
-        elif op[0] == "set":
+        elif op[0] in ("set", "setst"):      # assigning a State stores (validated) its value
             ops.append(f"SSet {cq_val(ref_value(sc, op[1]))}")
         else:
             ops.append("SExt None" if op[1] is None else f"SExt (Some {cq_val(ref_value(sc, op[1]))})")
@@ -240,10 +250,16 @@ def gen_case(rng):
         r = rng.random()
         if r < 0.5:
             ops.append(["send", rng.randrange(ne + 2)])
-        elif r < 0.65:
+        elif r < 0.58:
             ops.append(["set", rng.randrange(n)])
-        elif r < 0.75:
+        elif r < 0.65:
+            ops.append(["setst", rng.randrange(n), rng.random() < 0.5])
+        elif r < 0.70:
             ops.append(["set", {"raw": rng.choice(INVALID)}])
+        elif r < 0.75:
+            like = rng.randrange(n)
+            raw = rng.choice(INVALID) if rng.random() < 0.7 else rng.choice([v for v in values if v is not None] or INVALID)
+            ops.append(["setst", {"raw": raw, "like": like}, rng.random() < 0.5])
         elif r < 0.9:
             ops.append(["ext", rng.randrange(n)])
         elif r < 0.95:
